@@ -1,6 +1,6 @@
 ------------------------------ MODULE MeshTrace ------------------------------
 (* Trace validation of mesh operations executed by the real library (C09, C10, C13, C17, C12). *)
-EXTENDS MeshOps, Json, IOUtils
+EXTENDS PartApi, Json, IOUtils
 VARIABLE l
 Tr == ndJsonDeserialize(IOEnv.TRACE)
 Tag(S, t) == {t \o ":" \o x : x \in S}
@@ -21,6 +21,10 @@ Clauses(ev) ==
             \cup (IF ev.reloaded THEN Tag(SegsViol(ev.r), "reload") \cup Tag(V(ev.r.segTriParts = ev.t.segTriParts /\ ev.r.tris = ev.t.tris, "SameAfterReload"), "reload") ELSE {})
       [] ev.e = "partition" -> Tag(PartitionViol(ev.t, ev.boneLimit), ev.op)
       [] ev.e = "partassign" -> PartAssignViol(ev.s, ev.L, ev.t) \cup Tag(PartitionViol(ev.t, ev.boneLimit), "parts")
+      \* the partition API as a machine: the abstract labels are folded over the logged calls; every observation is judged
+      [] ev.e = "partapi" ->
+            LET as == RunApi(StartApi(ev.nt), ev.ops)
+            IN  UNION {Tag(ObsViol(as[j], ev.ops[j], ev.obs[j], ev.boneLimit), "after " \o ev.ops[j].k) : j \in 1..Len(ev.obs)}
       [] ev.e = "setget" -> SetGetViol(ev.s, ev.attr, ev.given, ev.t)
       \* inexact values: the getter is within half a storage step (dev1000: largest deviation in 1/1000 of 1/255)
       \* a shape beyond 65535 triangles: the expected list is computed by the harness (naive filter + renumbering)
